@@ -32,6 +32,8 @@ def plan(tier, seed):
         jobs += partnames.jobs("C19", tier)
     except ImportError:
         pass
+    jobs.append(dict(name="C19-lemma-append-dtype-pairs", kind="pyfunc", timeout=600,
+                     payload=dict(func="vf.pyshim.lemma_append:append_dtype_pairs")))
     extra = dict(
         explanation="The real append path (write_row_groups -> write_multi -> make_part_file -> "
                     "write_common_metadata) runs on a symbolic filesystem whose k-th call (open-for-write, write, "
